@@ -217,6 +217,26 @@ theorem groups_counts_sum_le_count (hmap : ∀ r ∈ rows, (r.map (·.1)).Nodup)
   rw [hsub]
   exact List.length_filter_le _ _
 
+/-- and to exactly the total count when every satisfying row carries every listed column
+(e.g. a CSV-built index, where every row has every column) -/
+theorem groups_counts_sum_eq_count (hmap : ∀ r ∈ rows, (r.map (·.1)).Nodup)
+    (hall : ∀ r ∈ rows, sat r e = true → ∀ c ∈ cols, c ∈ r.map (·.1)) :
+    (res.groups.map (·.2)).sum = res.count := by
+  rw [groups_counts_sum H rows e cols hcols hwf hinj hD hg hne res hres hmap]
+  obtain ⟨groups, _, hex⟩ := execute_eq_some H rows e cols hcols hwf hinj hD hg
+  rw [hex] at hres
+  simp only [Option.some.injEq] at hres
+  rw [← hres]
+  show _ = (rows.filter (sat · e)).length
+  congr 1
+  apply List.filter_congr
+  intro r hr
+  cases hs : sat r e
+  · rfl
+  · rw [Bool.true_and, List.all_eq_true]
+    intro c hc
+    simpa using hall r hr hs c hc
+
 end sql
 
 /-! ### non-vacuity -/
